@@ -31,7 +31,7 @@ pub struct C01Doc {
     pub queries: Vec<Query>,
 }
 
-pub const PROBES: [&str; 20] = [
+pub const PROBES: [&str; 21] = [
     "hit_in_expansion_repository",
     "hit_index2_only_file",
     "hit_only_in_index2_while_index_exists",
@@ -52,6 +52,7 @@ pub const PROBES: [&str; 20] = [
     "extract_hit",
     "expansion_token_without_repository",
     "second_half_of_index2_table",
+    "more_than_32_index_files_loaded_on_one_handle",
 ];
 
 pub fn platform_of(p: u8) -> Platform {
@@ -125,8 +126,11 @@ pub fn gen_install(r: &mut Rng, tier: Tier, max_entries: usize) -> InstallSpec {
     let mut repos = vec![];
     let mut used_keys: BTreeSet<(u8, u8, u64)> = BTreeSet::new();
     let mut used_full: BTreeSet<(u8, u8, u32)> = BTreeSet::new();
+    // one install in ten is "wide": many small index files in the base game, more than any
+    // plausible cache bound, so that eviction / miss paths run on one handle
+    let wide = r.chance(1, 10);
     for exp in &exps {
-        let n_packs = 1 + r.below(3) as usize;
+        let n_packs = if wide && *exp == 0 { r.range(24, 44) as usize } else { 1 + r.below(3) as usize };
         let mut packs: Vec<PackSpec> = vec![];
         for _ in 0..n_packs {
             // one time in three another chunk of a category the repository already has
@@ -146,7 +150,7 @@ pub fn gen_install(r: &mut Rng, tier: Tier, max_entries: usize) -> InstallSpec {
                 2 | 3 => IndexKind::Both,
                 _ => IndexKind::Partial,
             };
-            let n_entries = 1 + r.log_size(max_entries as u64 - 1) as usize;
+            let n_entries = if wide { 1 + r.below(2) as usize } else { 1 + r.log_size(max_entries as u64 - 1) as usize };
             let mut entries = vec![];
             for _ in 0..n_entries {
                 let second = match r.below(6) {
@@ -246,7 +250,14 @@ pub fn generate(seed: u64, tier: Tier) -> Doc {
             }
         }
     }
-    let nq = if tier == Tier::Thorough { r.range(10, 60) } else { r.range(6, 30) } as usize;
+    let n_packs: usize = install.repos.iter().map(|r| r.packs.len()).sum();
+    let nq = if n_packs > 20 {
+        r.range(50, 80)
+    } else if tier == Tier::Thorough {
+        r.range(10, 60)
+    } else {
+        r.range(6, 30)
+    } as usize;
     let mut queries = vec![];
     for id in 0..nq {
         let kind = match r.below(3) {
@@ -640,6 +651,23 @@ pub fn run(doc: &Doc, body: &C01Doc, trace: bool) -> RunResult {
     }
     if seen_after_fault {
         h.probe(10);
+    }
+    {
+        // distinct index files whose pack was hit by some query
+        let mut touched: BTreeSet<(u8, u8, u8, bool)> = BTreeSet::new();
+        for q in &body.queries {
+            if let Some(m) = lookup(&inst, &q.path) {
+                if m.in_index1 {
+                    touched.insert((m.exp, m.cat, m.chunk, false));
+                }
+                if m.in_index2 || !m.has_index1_file {
+                    touched.insert((m.exp, m.cat, m.chunk, true));
+                }
+            }
+        }
+        if touched.len() > 32 {
+            h.probe(20);
+        }
     }
     // second half of an index2 table (the table-size arithmetic)
     for repo in &body.install.repos {
